@@ -147,6 +147,15 @@ impl Router {
         }
     }
 
+    /// Exclusive access to the server: request workers hold clones of the `Arc` while they run,
+    /// so wait until they are done instead of failing (and dropping the notification).
+    fn server_mut(&mut self) -> &mut Server {
+        while Arc::strong_count(&self.server) > 1 {
+            std::thread::yield_now();
+        }
+        Arc::get_mut(&mut self.server).expect("no request worker holds the server")
+    }
+
     fn on_notification(&mut self, notification: Notification) -> bool {
         if notification.method == "exit" {
             return true;
@@ -155,17 +164,13 @@ impl Router {
         match notification.method.as_str() {
             "textDocument/didChange" => {
                 let params = DidChangeTextDocumentParams::deserialize(notification.params).unwrap();
-                Arc::get_mut(&mut self.server)
-                    .unwrap()
-                    .handle_did_change_text_document(params);
+                self.server_mut().handle_did_change_text_document(params);
                 #[cfg(iwe_org_iwe_verif)]
                 verif::event("notification-applied", "didChange");
             }
             "textDocument/didSave" => {
                 let params = DidSaveTextDocumentParams::deserialize(notification.params).unwrap();
-                Arc::get_mut(&mut self.server)
-                    .unwrap()
-                    .handle_did_save_text_document(params);
+                self.server_mut().handle_did_save_text_document(params);
                 #[cfg(iwe_org_iwe_verif)]
                 verif::event("notification-applied", "didSave");
             }
